@@ -163,6 +163,44 @@ def run(ctx):
             res.violations.append({'what': 'Number.cast: a spelling of a value does not cast to that value',
                                    'input': inp, 'expected': want, 'got': real})
 
+    # ---- (0b) whole numbers beyond 2**53 (round-6 seed C08-10: numeric text parsed through float() lost the last digits):
+    #      every EXACT spelling of the value — int, Number, numpy.int64, digit text with blanks / sign / leading zero, Text
+    #      objects, a cell holding the text — must cast to exactly that integer and take part in arithmetic as it
+    bigs = [2 ** 53 + 1, -(2 ** 53 + 1), 10 ** 15 + 1, 2 ** 62 + 1, 10 ** 17 + 3, 10 ** 20 + 7, 3 ** 40, 99999999999999999]
+    bigs += [ctx.rng.randrange(2 ** 53, 2 ** 80) * 2 + 1 for _ in range(12 if thorough else 4)]
+    import numpy
+    for iv in bigs:
+        exact = [('int', iv), ('Number(int)', ft.Number(iv)), ('str', str(iv)), ('str blanks', f' {iv} '),
+                 ('Text', ft.Text(str(iv))), ('Text blanks', ft.Text(f'  {iv} '))]
+        if iv >= 0:
+            exact += [('str +', f'+{iv}'), ('str 0', f'0{iv}'), ('Text +', ft.Text(f'+{iv}'))]
+        if -2 ** 63 <= iv < 2 ** 63:
+            exact.append(('numpy.int64', numpy.int64(iv)))
+        want = f'I:{iv}'
+        for label, obj in exact:
+            checks = [('Number.cast', call_real(cast_number, obj), want),
+                      ('OP_ADD(x,0)', call_real(xl.FUNCTIONS['OP_ADD'], obj, 0), want),
+                      ('OP_SUB(x,1)', call_real(xl.FUNCTIONS['OP_SUB'], obj, 1), f'I:{iv - 1}'),
+                      ('OP_NEG(x)', call_real(xl.FUNCTIONS['OP_NEG'], obj), f'I:{-iv}'),
+                      ('ABS(x)', call_real(xl.FUNCTIONS['ABS'], obj), f'I:{abs(iv)}')]
+            for what, got, w in checks:
+                res.evaluations += 1
+                res.count('big-int')
+                res.nontrivial.add(('big-int', what, label, iv))
+                if not same_value(got, w):
+                    res.violations.append({'what': f'{what}: an exact spelling of a whole number beyond 2**53 does not denote that number',
+                                           'input': {'value': str(iv), 'spelling': label}, 'expected': w, 'got': got})
+        for cellv, label in ((iv, 'int cell'), (str(iv), 'text cell'), (f' {iv}', 'text cell blanks')):
+            for form, w in (('=A1+0', want), ('=A1-1', f'I:{iv - 1}'), ('=-A1', f'I:{-iv}'), ('=ABS(A1)', f'I:{abs(iv)}'),
+                            ('=SUM(A1,0)' if not isinstance(cellv, str) else '=A1*1', want)):
+                got = eval_cells({'Sheet1!A1': cellv, 'Sheet1!C1': form}, 'Sheet1!C1')
+                res.evaluations += 1
+                res.count('big-int-formula')
+                res.nontrivial.add(('big-int-formula', form, label, iv))
+                if not same_value(got, w):
+                    res.violations.append({'what': 'a whole number beyond 2**53 in a cell does not take part in a formula as that number',
+                                           'input': {'A1': repr(cellv), 'formula': form}, 'expected': w, 'got': got})
+
     # ---- (1) every function with numeric parameters x position x value x spelling
     fnames = [n for n in sorted(xl.FUNCTIONS) if n not in VOLATILE]
     for name in fnames:
